@@ -47,6 +47,8 @@ def g_kctor(draw, tier):
     c["weights_arg"] = draw(st.booleans())
     c["copy_kw"] = draw(st.booleans())
     c["seq"] = draw(st.sampled_from(["list", "tuple"]))
+    c["_present"] = R.d_present(draw, values=["weights"])
+    c["fpresent"] = [draw(st.sampled_from(R.CS.KFACTOR_FORMS + ("neg-strided",))) for _ in c["shape"]]
     return c
 
 
@@ -55,9 +57,11 @@ def _(ctx, c):
     fm = [np.array(f, dtype=float).reshape(n, c["rank"]) for f, n in zip(c["factors"], c["shape"])]
     if c["layout"] == "F":
         fm = [np.asfortranarray(f) for f in fm]
+    fm = [R.CS.present(f, p) for f, p in zip(fm, c["fpresent"])]
+    ctx.label(*["factor-presented-" + p for p in c["fpresent"] if p])
     if c["seq"] == "tuple":
         fm = tuple(fm)
-    w = np.array(c["weights"], dtype=float)
+    w = R.presented(ctx, c, "weights", np.array(c["weights"], dtype=float))
     ops = {"factor_matrices": fm}
     kw = {"copy": True} if c["copy_kw"] else {}
     ctx.label("layout-" + c["layout"], "with-weights" if c["weights_arg"] else "no-weights")
@@ -434,7 +438,7 @@ def g_update(draw, tier):
 @op("ktensor/update", g_update, quick=60, inplace="self")
 def _(ctx, c):
     X = K(c)
-    data = np.array(c["data"], dtype=float)
+    data = R.CS.aux(c, np.array(c["data"], dtype=float))
     modes = R.as_form(c["modes"], c["form"])
     ctx.label("single-mode" if len(c["modes"]) == 1 else "many-modes", "with-weights" if -1 in c["modes"] else "no-weights")
     return {"self": X, "modes": modes, "data": data}, lambda: X.update(modes, data)
@@ -506,6 +510,10 @@ def _(ctx, c):
     fm = [np.array(f, dtype=float).reshape(s, k) for f, s, k in zip(c["factors"], c["shape"], c["cshape"])]
     if c["layout"] == "F":
         fm = [np.asfortranarray(f) for f in fm]
+    # (round 4, class 11) the caller's factor matrices in the presentation the case asks for: scipy COO matrices,
+    # strided / read-only / single-precision arrays ... - the constructor copies, whatever it is handed
+    fm = [R.CS.present(f, p) for f, p in zip(fm, c.get("_fp") or [None] * len(fm))]
+    ctx.label(*sorted({"factor-presented-" + R.CS.present_label(f) for f in fm}))
     if c["seq"] == "tuple":
         fm = tuple(fm)
     t_labels(ctx, c)
@@ -680,7 +688,7 @@ def _(ctx, c):
     for sm, m in zip(c["samples"], c["modes"]):
         ctx.label("sample-" + sm["kind"])
         if sm["kind"] == "matrix":
-            samples.append(R.mat(sm["v"], sm["k"], c["shape"][m]))
+            samples.append(R.mat(sm["v"], sm["k"], c["shape"][m], c))
         else:
             samples.append(np.array(sm["v"], dtype=int))
     ops = {"self": X, "samples": samples}
@@ -718,11 +726,23 @@ def s_labels(ctx, c):
     ctx.label(f"parts{len(c['parts'])}", *sorted({"part-" + p["kind"] for p in c["parts"]}))
 
 
-@op("sumtensor/ctor-copy", lambda tier: R.sum_case(tier))
+@st.composite
+def g_sctor(draw, tier):
+    c = draw(R.sum_case(tier))
+    c["seq"] = draw(st.sampled_from(["list", "list", "tuple"]))
+    c["copy_kw"] = draw(st.booleans())
+    return c
+
+
+@op("sumtensor/ctor-copy", g_sctor)
 def _(ctx, c):
     parts = [R.other_of(p["kind"], p["c"]) for p in c["parts"]]
+    if c["seq"] == "tuple":
+        parts = tuple(parts)
     s_labels(ctx, c)
-    return {"tensors": parts}, lambda: ttb.sumtensor(parts)
+    ctx.label("parts-in-" + c["seq"])
+    kw = {"copy": True} if c["copy_kw"] else {}
+    return {"tensors": parts}, lambda: ttb.sumtensor(parts, **kw)
 
 
 _SUNARY = {
